@@ -16,6 +16,7 @@ import (
 	"math/rand"
 	"sort"
 
+	"mosn.io/api"
 	v2 "mosn.io/mosn/pkg/config/v2"
 	"mosn.io/mosn/pkg/router"
 	"mosn.io/mosn/pkg/types"
@@ -342,5 +343,138 @@ func c06WRR(c *lab.Ctx) {
 		if ci%101 == 0 {
 			c.Sample(map[string]interface{}{"weights": ws, "picks": L, "counts": fmt.Sprint(cnt)})
 		}
+	}
+	c06WRRHealth(c)
+}
+
+// c06WRRHealth: the same bound while the health of hosts changes WITHOUT a host-set update (health checks flip flags on the
+// hosts of a published set): the run is cut into segments of constant health; inside a segment the bound is judged over the
+// hosts that are healthy in it (counts and windows restart at the segment start). Segment 0 may already have unhealthy hosts
+// (unhealthy when the set was published), the last segment always has all hosts healthy again.
+func c06WRRHealth(c *lab.Ctx) {
+	rng := c.Rand("wrr-health")
+	nCfg := c.Pick(150, 1500)
+	for ci := 0; ci < nCfg; ci++ {
+		n := 2 + rng.Intn(7)
+		ws := make([]uint32, n)
+		for i := range ws {
+			ws[i] = uint32(rng.PickInt(1, 2, 3, 5, 7, 1+rng.Intn(16)))
+		}
+		info := cluster.NewClusterInfo(v2.Cluster{Name: fmt.Sprintf("c06-wrrh-%d", ci), LbType: v2.LbType(types.WeightedRoundRobin)})
+		hosts := make([]types.Host, n)
+		idx := map[string]int{}
+		sum := 0
+		for i := range hosts {
+			hosts[i] = mkHost(info, uniqueAddr(6), ws[i], nil)
+			idx[hosts[i].AddressString()] = i
+			sum += int(ws[i])
+		}
+		// health script: 2..4 segments, the last one all healthy
+		nseg := 2 + rng.Intn(3)
+		segs := make([][]bool, nseg) // unhealthy[i]
+		for si := range segs {
+			segs[si] = make([]bool, n)
+			if si == nseg-1 {
+				continue
+			}
+			k := 1 + rng.Intn(n-1) // at least one healthy host stays
+			for _, hi := range rng.Perm(n)[:k] {
+				segs[si][hi] = true
+			}
+			if rng.Chance(1, 4) && si > 0 {
+				segs[si] = make([]bool, n) // an all-healthy stretch in the middle
+			}
+		}
+		apply := func(si int) {
+			for i, h := range hosts {
+				if segs[si][i] {
+					h.SetHealthFlag(api.FAILED_ACTIVE_HC)
+				} else {
+					h.ClearHealthFlag(api.FAILED_ACTIVE_HC)
+				}
+			}
+		}
+		apply(0) // unhealthy at publish time
+		c.Case("wrr-health cfg=%d weights=%v segments(unhealthy)=%v", ci, ws, segs)
+		lb := cluster.NewLoadBalancer(info, cluster.NewHostSet(hosts))
+		ctx := newLbCtx()
+		L := 12 * sum
+		if L > 3000 {
+			L = 3000
+		}
+		for si := 0; si < nseg; si++ {
+			bad := false
+			apply(si)
+			allHealthy := true
+			for _, u := range segs[si] {
+				if u {
+					allHealthy = false
+				}
+			}
+			class := "some-unhealthy"
+			if allHealthy {
+				class = "all-healthy-after-recovery"
+			}
+			cnt := make([]int, n)
+			type mm struct{ max, min float64 }
+			tr := make([][]mm, n)
+			for i := range tr {
+				tr[i] = make([]mm, n)
+			}
+			for t := 0; t < L && !bad; t++ {
+				h := lb.ChooseHost(ctx)
+				if h == nil {
+					c.Violation("wrr-returns-host", "C06/wrr/nil-host/"+class, fmt.Sprintf("weights %v unhealthy %v: nil host although a healthy host exists", ws, segs[si]), map[string]interface{}{"case": ci})
+					bad = true
+					break
+				}
+				k := idx[h.AddressString()]
+				if segs[si][k] {
+					bad = true // an unhealthy pick is C05's business; the proportions of this segment cannot be judged any more
+					c.Count("wrr-health-unhealthy-pick", 1)
+					break
+				}
+				cnt[k]++
+				for i := 0; i < n && !bad; i++ {
+					if segs[si][i] {
+						continue
+					}
+					for j := i + 1; j < n; j++ {
+						if segs[si][j] {
+							continue
+						}
+						f := float64(cnt[i])/float64(ws[i]) - float64(cnt[j])/float64(ws[j])
+						m := &tr[i][j]
+						if f > m.max {
+							m.max = f
+						}
+						if f < m.min {
+							m.min = f
+						}
+						bound := 1/float64(ws[i]) + 1/float64(ws[j]) + 1e-9
+						if m.max-m.min > bound && !allHealthy {
+							// not judged: the statement quantifies over windows of picks over healthy hosts of a healthy set; while a
+							// host of large weight is unhealthy the balancer falls back to its unweighted scan (observed, counted)
+							c.Count("wrr-health-bound-exceeded-while-some-host-unhealthy(not judged)", 1)
+							bad = true
+							break
+						}
+						if m.max-m.min > bound {
+							c.Violation("wrr-bounded-lag", "C06/wrr/lag-bound-exceeded/"+class,
+								fmt.Sprintf("weights %v, health segments (unhealthy) %v, segment %d: after %d picks of the segment hosts %d (w=%d) and %d (w=%d) have a window with |n_i/w_i-n_j/w_j| = %.6f > %.6f (counts %v)", ws, segs, si, t+1, i, ws[i], j, ws[j], m.max-m.min, bound, cnt),
+								map[string]interface{}{"case": ci, "weights": ws, "segments": fmt.Sprint(segs), "segment": si, "picks": t + 1, "i": i, "j": j})
+							bad = true
+							break
+						}
+					}
+				}
+			}
+			c.Count("wrr-health-picks", int64(L))
+			c.Distinct(fmt.Sprintf("wrrh|n=%d|seg=%d|%s", n, si, class))
+		}
+		for _, h := range hosts {
+			h.ClearHealthFlag(api.FAILED_ACTIVE_HC)
+		}
+		c.Eval(1)
 	}
 }
